@@ -940,7 +940,7 @@ def char_strategy(features):
     from hypothesis import strategies as st
     groups = [st.sampled_from(list('abcxyzABZ019_'))] * 2
     if 'meta' in features:
-        groups += [st.sampled_from(META)] * 5
+        groups += [st.sampled_from(META)] * 5 + [st.just('\\')]     # the backslash is the most dangerous character: extra weight
     if 'ws' in features:
         groups += [st.sampled_from(list('\n\t\r\x0b\x0c \x00\x7f'))]
     groups += [st.sampled_from(list('\'"#<>=!:&~,P%@;`'))]
@@ -949,10 +949,18 @@ def char_strategy(features):
     return st.one_of(*groups)
 
 
-def literal_strategy(features, min_size=0, max_size=6):
+def literal_strategy(features, min_size=0, max_size=6, long=True):
+    """Mostly short literals (many small cases), plus runs of one repeated metacharacter / backslash runs and, rarely,
+    long literals (17-40 characters): defects that need a *count* of special characters are otherwise out of reach."""
     from hypothesis import strategies as st
     ch = char_strategy(features)
     plain = st.lists(ch, min_size=min_size, max_size=max_size).map(''.join)
+    if long and 'meta' in features:
+        run = st.tuples(st.lists(ch, max_size=2).map(''.join), st.sampled_from(META), st.integers(2, 4),
+                        st.lists(ch, max_size=1).map(''.join)).map(lambda t: t[0] + t[1] * t[2] + t[3])
+        longer = st.lists(ch, min_size=17, max_size=40).map(''.join)
+        longrun = st.tuples(st.sampled_from(META), st.integers(17, 24)).map(lambda t: t[0] * t[1])
+        plain = st.one_of(plain, plain, plain, plain, plain, plain, run, run, longer, longrun)
     if 'frag' not in features:
         return plain
     frag = st.tuples(st.lists(ch, max_size=2).map(''.join), st.sampled_from(FRAGMENTS),
